@@ -288,7 +288,16 @@ def r5_no_client_sized_allocation(ctx):
     ctx.check(R, "capacity-sites-examined", n >= 1, "capacity-taking calls examined in the request region (%d functions): %d" % (len(reg), n), nontrivial=False)
 
 
-RULES = [("C18.R5", r5_no_client_sized_allocation), ("C18.R1", r1_accept_tolerates_errors), ("C18.R2", r2_isolation), ("C18.R3", r3_errors_become_responses), ("C18.R4", r4_panic_census)]
+
+def r_frame_errors_are_errors(ctx):
+    """C11.R7 (a failed body frame always becomes a for_bad_request error item), re-evaluated here because its violation is a
+    violation of this property too (seed C18-D)."""
+    from . import c11
+    from .lib_c01 import Renamed
+    c11.r7_frame_errors_are_errors(Renamed(ctx, "C18.R6", "a truncated or corrupt request body is answered with an error, never handed to the handler as if complete"))
+
+
+RULES = [("C18.R6", r_frame_errors_are_errors), ("C18.R5", r5_no_client_sized_allocation), ("C18.R1", r1_accept_tolerates_errors), ("C18.R2", r2_isolation), ("C18.R3", r3_errors_become_responses), ("C18.R4", r4_panic_census)]
 
 _S = "dropshot/src/server.rs"
 _I32 = " " * 32
